@@ -399,6 +399,12 @@ def execute(case):
         ra, rb = A.rows[i], B.rows[i]
         if s["k"] in ("nam", "end", "equ", "setdp"):
             continue
+        if ra[0] is None or rb[0] is None:
+            # a statement that emits nothing behind a last byte at $FFFF is listed without an address (its address would
+            # be $10000); anything that emits bytes has one
+            if ra[1] or rb[1] or proggen.size_bounds(s)[1] > 0:
+                return viol("shift by {}: row {} has no address.".format(d, ra[2].strip()[:40]) + ctx, fid="C18:shift:rows", labels=labels)
+            continue
         if rb[0] - ra[0] != d:
             return viol("shift by {}: row {} moved by {}.".format(d, ra[2].strip()[:40], rb[0] - ra[0]) + ctx, fid="C18:shift:rows", labels=labels)
         nxt = A.rows[i + 1][0] if i + 1 < len(A.rows) and stmts[i + 1]["k"] not in ("nam", "end", "equ", "setdp") else None
